@@ -172,6 +172,24 @@ func LoadMint(config Config) (*Mint, error) {
 			}
 			mint.keysets[keyset.Id] = *keyset
 		}
+		// no active keyset means a rotation stopped after it inactivated the
+		// previous keyset and before it saved the new one. Activate the latest
+		// keyset again so that the mint can start (and rotate again if wanted).
+		if mint.activeKeyset == nil {
+			var latest *crypto.MintKeyset
+			for _, keyset := range mint.keysets {
+				if latest == nil || keyset.DerivationPathIdx > latest.DerivationPathIdx {
+					k := keyset
+					latest = &k
+				}
+			}
+			if err := db.UpdateKeysetActive(latest.Id, true); err != nil {
+				return nil, fmt.Errorf("could not update active state of keyset in db: %v", err)
+			}
+			latest.Active = true
+			mint.activeKeyset = latest
+			mint.keysets[latest.Id] = *latest
+		}
 		if config.RotateKeyset {
 			_, err := mint.RotateKeyset(config.InputFeePpk)
 			if err != nil {
